@@ -93,7 +93,14 @@ static void wake_waiters (nsync_dll_list_ to_wake_list, int all_readers) {
 				int p_is_writer;
 				struct nsync_waiter_s *p_nw = DLL_NSYNC_WAITER (p);
 				waiter *p_w = NULL;
-				if ((p_nw->flags & NSYNC_WAITER_FLAG_MUCV) != 0) {
+				/* Only a waiter that waits with *pmu itself can be
+				   transferred to *pmu's queue.  A waiter whose lock was
+				   given through the generic interface (cv_mu==NULL,
+				   l_type==NULL) reacquires with its own lock routine,
+				   not with nsync_mu_lock_slow_(), so it would never
+				   clear MU_DESIG_WAKER if woken from *pmu's queue. */
+				if ((p_nw->flags & NSYNC_WAITER_FLAG_MUCV) != 0 &&
+				    DLL_WAITER (p)->cv_mu == pmu) {
 					p_w = DLL_WAITER (p);
 				}
 				next = nsync_dll_next_ (to_wake_list, p);
